@@ -6,10 +6,10 @@ ToolsAll == {"none", "ok", "fail"}
 NetAll == {"nourl", "offline", "online"}
 EntriesAll == {"plain", "bundled"}
 EntriesPlain == {"plain"}
-OutcomesAll == {"G", "Th", "Te", "J", "E", "http", "proto", "refused"}
+OutcomesAll == {"G", "Th", "Te", "J", "E", "C", "http", "proto", "refused"}
 CrashAll == {"kill", "intr"}
 DocsAll == {"absent", "empty", "mid", "last", "full", "other"}
-ArchsAll == {"absent", "G", "Th", "Te", "J", "E"}
+ArchsAll == {"absent", "G", "Th", "Te", "J", "E", "C"}
 OffsAll == {"absent", "X", "part", "O", "torn", "bad"}
 TmpsAll == {"absent", "stale"}
 TmpsNone == {"absent"}
@@ -21,6 +21,6 @@ FmtsB == {"gz", "zip"}
 NetOn == {"online", "nourl"}
 ToolsTwo == {"none", "ok"}
 DocsB == {"absent", "mid", "full"}
-ArchsB == {"absent", "G", "Th", "E"}
+ArchsB == {"absent", "G", "Th", "E", "C"}
 OffsB == {"absent", "X", "torn"}
 ====
